@@ -75,7 +75,7 @@ func verifIsPrefix(p, s []byte) bool {
 // end of input, read through dataReader.Read with every combination of segment size
 // {unsegmented, 1, 2} and buffer size {1, 2, 3, L+2}. Differential against refUnstuff.
 func verif_C01_stream() {
-	L := verifBound(6, 8)
+	L := verifBound(6, 9)
 	stream := nondetBytes(L)
 	// network segmentation and the backend's buffer size vary independently
 	// (a small buffer over a fully buffered stream is what a block-reading
